@@ -1,7 +1,8 @@
 (* C13 — hex dumps are lossless.  Only statements; every proof is [exact] of a lemma from Proofs/. *)
 From Coq Require Import List NArith Bool Arith.
 From PV Require Import Base.Bytes Base.Lit Model.Hexdump Spec.DumpFormats Gen.Tables
-                       Proofs.BytesFacts Proofs.HexdumpFacts Proofs.HexdumpRoundtrip.
+                       Proofs.BytesFacts Proofs.HexdumpFacts Proofs.HexdumpRoundtrip
+                       Proofs.HexdumpComments.
 Import ListNotations.
 Open Scope N_scope.
 
@@ -53,6 +54,24 @@ Theorem C13_comments : forall fmt ls, (exists f ft, fmt = f :: ft /\ (f = cA \/ 
   parse fmt ls = parse fmt (filter (fun t => negb (is_comment_line t)) ls).
 Proof. exact parse_ignores_comments. Qed.
 Print Assumptions C13_comments.
+
+(* the two clauses joined: a dump line is never taken for a comment (every permitted layout, every offset), so a
+   default-format dump with comment or blank lines anywhere between its lines still parses to exactly the original bytes *)
+Theorem C13_dump_lines_kept : forall bpl bpc d ls, hexdump_gen bpl bpc d = Some ls ->
+  filter (fun t => negb (is_comment_line t)) ls = ls.
+Proof. exact hexdump_gen_no_comment_lines. Qed.
+Print Assumptions C13_dump_lines_kept.
+Theorem C13_roundtrip_among_comments : forall d ls,
+  Forall (fun b => b < 256) d -> N.of_nat (length d) + 16 <= 2 ^ 32 ->
+  filter (fun t => negb (is_comment_line t)) ls = hexdump d -> parse default_fmt ls = d.
+Proof. exact hexdump_roundtrip_among_comments. Qed.
+Print Assumptions C13_roundtrip_among_comments.
+(* its hypothesis is met: a comment line before every dump line and after the last *)
+Theorem C13_roundtrip_interleaved : forall c d, is_comment_line c = true ->
+  Forall (fun b => b < 256) d -> N.of_nat (length d) + 16 <= 2 ^ 32 ->
+  parse default_fmt (interleave c (hexdump d)) = d.
+Proof. exact hexdump_roundtrip_interleaved. Qed.
+Print Assumptions C13_roundtrip_interleaved.
 
 (* the --hex display reproduces the bytes between its begin/end markers *)
 Theorem C13_hex_display : forall d, Forall (fun b => b < 256) d -> N.of_nat (length d) + 16 <= 2 ^ 32 ->
